@@ -2,7 +2,7 @@
 from vf import ref
 from vf.core import call, exc_desc
 from vf.lazy import ck, libx, common
-from vf.monitors import algos
+from vf.monitors import algos, large
 
 PROP = "C03"
 TECHNIQUE = ('runtime monitoring of every algorithm configuration (shared algorithm objects, in-place mutation histories, stand-in CPLEX, bounds-checked and interpreted kernels, crash attribution) with a well-formedness oracle on each returned consensus; repository tests re-run under the monitors')
@@ -27,11 +27,15 @@ def _plan(tier, seed):
     if tier == "quick":
         return ([{"n_cases": 150, "mode": "A", "hashseed": i % 2} for i in range(6)] +
                 [{"n_cases": 28, "mode": "AD", "hashseed": i % 2} for i in range(4)] +
-                [{"n_cases": 60, "mode": "B"}, {"n_cases": 25, "mode": "C"}])
+                [{"n_cases": 60, "mode": "B"}, {"n_cases": 25, "mode": "C"}] +
+                [{"n_cases": 2, "mode": "A", "params": {"xlarge": prof}, "hashseed": i % 2}
+                 for i, prof in enumerate(["wide", "tall", "cells", "heavy"])])
     return ([{"n_cases": 900, "mode": "A", "hashseed": i % 4} for i in range(9)] +
             [{"n_cases": 250, "mode": "AD", "hashseed": i % 4} for i in range(8)] +
             [{"n_cases": 700, "mode": "B", "hashseed": i} for i in range(2)] +
-            [{"n_cases": 250, "mode": "C", "hashseed": i} for i in range(2)])
+            [{"n_cases": 250, "mode": "C", "hashseed": i} for i in range(2)] +
+            [{"n_cases": 8, "mode": "A", "params": {"xlarge": prof}, "hashseed": i}
+             for i, prof in enumerate(["sweep", "tall", "cells", "heavy"])])
 
 def plan(tier, seed):
     """+ one shard running the repository's own tests under the monitors (vf/pytest_plugin.py)"""
@@ -45,6 +49,10 @@ ENUMS = ["enum:EXACT", "enum:PARCONS", "enum:BIOCONSERT", "enum:BIOCO", "enum:KW
 
 
 def gen_case(rng, ctx):
+    if ctx.params.get("xlarge"):
+        case = large.gen_large(rng, profiles=[ctx.params["xlarge"]], index=ctx.index)
+        case["dcls"] = "xlarge"
+        return case
     case = algos.gen_algo_case(rng, ctx, nmax=6 if ("C" in ctx.mode or "D" in ctx.mode) else 8)
     # plus one algorithm obtained through get_algorithm(Algorithm.X): whatever object the enumeration hands out must
     # return well-formed consensuses too
@@ -55,7 +63,40 @@ def gen_case(rng, ctx):
     return case
 
 
+def check_xlarge(case, ctx):
+    """size classes of vf/monitors/large.py: every affordable configuration returns a well-formed consensus"""
+    lc = large.Context(case)
+    common.set_case(ctx, large.slim(case))
+    one = case["libseed"] % 2 == 0
+    for cfg in large.configs_for(case, case["libseed"]) + ["KwikSort"]:
+        sub = large.slim(case, configs=[cfg], one=one, libseed=case["libseed"])
+        st, cons = large.run(cfg, lc, one, case["libseed"])
+        ctx.count("runs")
+        ctx.unit()
+        if st != "ok":
+            if large.refusal_expected(cfg, cons, lc):
+                ctx.count("refused")
+                continue
+            ctx.violation(algos.exc_signature(PROP, cons), f"{cfg} (at_most_one={one}) did not return a consensus on "
+                          f"{case['n']} elements x {case['m']} rankings: {exc_desc(cons)}", sub, observed=type(cons).__name__)
+            continue
+        ctx.count("returned")
+        ctx.count("xlarge_returned")
+        probs = common.consensus_problems(cons, lc.dataset, one)
+        for sig, what in probs[:2]:
+            ctx.violation(sig, f"{cfg} (at_most_one={one}) on {case['n']} elements x {case['m']} rankings: {what[:300]}", sub)
+        if not probs:
+            ctx.nontrivial({"n": case["n"], "m": case["m"], "cfg": cfg, "d": gen_digest(case["ds"])})
+
+
+def gen_digest(x):
+    from vf import gen
+    return gen.digest(x)
+
+
 def check_case(case, ctx):
+    if case.get("dcls") == "xlarge":
+        return check_xlarge(case, ctx)
     ds, sch = case["ds"], case["scheme"]
     common.set_case(ctx, case)
     dataset = libx.mk_dataset(ds)
@@ -138,6 +179,9 @@ def reach(counters, tier, info):
         v = counters.get("history:" + kind, 0)
         req = 25 if tier == "quick" else 250
         out.append({"name": f"histories whose step is {kind}", "observed": v, "required": req, "ok": v >= req})
+    v = counters.get("xlarge_returned", 0)
+    out.append({"name": "consensuses over 63-1025 elements / 40-257 rankings judged", "observed": v,
+                "required": 20 if tier == "quick" else 80, "ok": v >= (20 if tier == "quick" else 80)})
     v = counters.get("ilp_cases", 0)
     out.append({"name": "datasets on which an ILP was really built", "observed": f"{v}/{cases}",
                 "required": ">= 30%", "ok": cases > 0 and v >= 0.3 * cases})
